@@ -3,6 +3,7 @@ import Oracle.Slice
 import Oracle.Lib
 import Oracle.Equal
 import Oracle.Prec
+import Oracle.Exhaust
 open Oracle
 
 /-- a line is `(<stream> payload...)`; the answer is one S-expression -/
@@ -12,6 +13,7 @@ def handle (line : String) : String :=
     match stream with
     | "echo" => toString (Sx.list payload)
     | "slice.hist" => toString (Oracle.Slice.handle payload)
+    | "c09.match" => toString (Oracle.Exhaust.handle payload)
     | "c08.chain" => toString (Oracle.Prec.handle payload)
     | "eq.pair" => toString (Oracle.Equal.handle payload)
     | "lib.dict" => toString (Oracle.Lib.dictStream payload)
